@@ -346,6 +346,101 @@ def fn_indexed_stat(spec, rec):
     rec.label("axis:" + ("none" if axis is None else "int"), "subset:" + ("none" if sub is None else sub["t"]))
 
 
+# --------------------------------------------------------------------------- what the viewers plot: profile and histogram layer states
+
+def fn_layer_products(spec, rec):
+    from glue.core import Data, DataCollection
+    shape = tuple(spec["shape"])
+    n = int(np.prod(shape))
+    vals = np.array(spec["vals"][:n] + [0.0] * max(0, n - len(spec["vals"])), dtype=float).reshape(shape)
+    d = Data(label="cube", v=vals)
+    dc = DataCollection([d])
+    thr = spec["thr"]
+    dc.new_subset_group(subset_state=d.id["v"] > thr)
+    sel = vals > thr
+    if spec["what"] == "profile":
+        from glue.viewers.profile.state import ProfileViewerState, ProfileLayerState
+        vs = ProfileViewerState()
+        ld = ProfileLayerState(layer=d, viewer_state=vs)
+        vs.layers.append(ld)
+        lsub = ProfileLayerState(layer=d.subsets[0], viewer_state=vs)
+        vs.layers.append(lsub)
+        for k, step in enumerate(spec["steps"]):
+            ax = step["axis"] % len(shape)
+            vs.x_att = d.pixel_component_ids[ax]
+            vs.function = step["function"]
+            axes = tuple(i for i in range(len(shape)) if i != ax)
+            for name, layer, keep in (("data", ld, np.isfinite(vals)), ("subset", lsub, sel & np.isfinite(vals))):
+                layer.update_profile(update_limits=False)
+                x, y = layer.profile
+                exp = oracle_stat(step["function"], vals, keep, axes if axes else (), 50)
+                exp = np.asarray(exp, dtype=float)
+                if np.all(np.isnan(exp)):
+                    if len(y) != 0:
+                        raise Mismatch("profile/all-nan-not-empty/" + name, {"step": k, "got": np.asarray(y).tolist()})
+                    continue
+                if not close(np.asarray(y, dtype=float), exp):
+                    raise Mismatch("profile/values/%s/%s" % (name, step["function"]), {"step": k, "axis": ax, "got": np.asarray(y).tolist(), "expected": exp.tolist()})
+                if not np.array_equal(np.asarray(x, dtype=float), np.arange(shape[ax], dtype=float)):
+                    raise Mismatch("profile/x-values/" + name, {"step": k, "got": np.asarray(x).tolist()})
+        rec.nt(len(shape) >= 2 and sel.any() and not sel.all())
+    else:
+        from glue.viewers.histogram.state import HistogramViewerState, HistogramLayerState
+        vs = HistogramViewerState()
+        ld = HistogramLayerState(layer=d, viewer_state=vs)
+        vs.layers.append(ld)
+        lsub = HistogramLayerState(layer=d.subsets[0], viewer_state=vs)
+        vs.layers.append(lsub)
+        for k, step in enumerate(spec["steps"]):
+            lo, hi, nb = step["lo"], step["lo"] + step["width"], step["bins"]
+            vs.hist_x_min, vs.hist_x_max, vs.hist_n_bin = lo, hi, nb
+            vs.cumulative, vs.normalize = step["cumulative"], step["normalize"]
+            for name, layer, keep in (("data", ld, np.isfinite(vals)), ("subset", lsub, sel & np.isfinite(vals))):
+                edges, h = layer.histogram
+                x = vals[keep & (vals >= lo) & (vals <= hi)]
+                eps = 1e-9 * (abs(lo) + abs(hi))
+                e = np.linspace(lo, hi, nb + 1)
+                if len(x) and np.min(np.abs(x[:, None] - e[None, 1:-1]), initial=np.inf) <= eps:
+                    rec.label("histogram:sample-on-interior-edge:skipped")
+                    continue
+                counts = np.histogram(x, bins=nb, range=(lo, hi))[0].astype(float)
+                dx = (hi - lo) / nb
+                with np.errstate(all="ignore"):
+                    if step["cumulative"]:
+                        exp = counts.cumsum()
+                        if step["normalize"]:
+                            exp = exp / exp.max()
+                    elif step["normalize"]:
+                        exp = counts / (counts.sum() * dx)
+                    else:
+                        exp = counts
+                if not np.allclose(np.asarray(edges, dtype=float), e, rtol=1e-12, atol=1e-12):
+                    raise Mismatch("layer-histogram/edges/" + name, {"step": k, "got": np.asarray(edges).tolist(), "expected": e.tolist()})
+                if not close(np.asarray(h, dtype=float), exp):
+                    raise Mismatch("layer-histogram/values/%s%s%s" % (name, "/cumulative" if step["cumulative"] else "", "/normalize" if step["normalize"] else ""),
+                                   {"step": k, "got": np.asarray(h).tolist(), "expected": exp.tolist()})
+        rec.nt(sel.any() and not sel.all() and len(spec["steps"]) >= 2)
+    rec.label("what:" + spec["what"])
+
+
+@st.composite
+def product_cases(draw):
+    what = draw(st.sampled_from(["profile", "histogram"]))
+    shape = draw(gen.shapes(1, 3, 4, 2)) if what == "profile" else draw(gen.shapes(1, 2, 5, 2))
+    n = int(np.prod(shape))
+    vals = draw(st.lists(st.one_of(gen.dyadic, st.just(float("nan"))), min_size=n, max_size=n))
+    if len({v for v in vals if v == v}) < 2:
+        vals[0], vals[-1] = -1.5, 2.25      # a constant attribute gives the histogram viewer a zero-width default range
+    steps = []
+    for _ in range(draw(st.integers(1, 4))):
+        if what == "profile":
+            steps.append({"axis": draw(st.integers(0, 2)), "function": draw(st.sampled_from(["maximum", "minimum", "mean", "median", "sum"]))})
+        else:
+            steps.append({"lo": draw(st.sampled_from([-4.1, -2.05, 0.3, -0.7])), "width": draw(st.sampled_from([1.3, 4.2, 8.4])), "bins": draw(st.integers(1, 8)),
+                          "cumulative": draw(st.booleans()), "normalize": draw(st.booleans())})
+    return {"what": what, "shape": shape, "vals": vals, "thr": draw(gen.dyadic), "steps": steps}
+
+
 # --------------------------------------------------------------------------- generators
 
 SUBSET_KINDS = ["ineq", "range", "mask", "slice", "element", "base", "roi", "multirange"]
@@ -439,9 +534,10 @@ def indexed_stat_cases(draw):
 
 
 def checks(tier):
-    n = {"quick": (8000, 3000, 1000), "thorough": (320000, 120000, 40000)}.get(tier, (10, 10, 10))
+    n = {"quick": (8000, 3000, 1000, 600), "thorough": (320000, 120000, 40000, 40000)}.get(tier, (10, 10, 10, 10))
     return [
         Check("statistics", fn_stat, strategy=stat_cases(), examples=n[0]),
         Check("histograms", fn_hist, strategy=hist_cases(), examples=n[1]),
         Check("indexed_statistics", fn_indexed_stat, strategy=indexed_stat_cases(), examples=n[2]),
+        Check("viewer_layer_products", fn_layer_products, strategy=product_cases(), examples=n[3]),
     ]
